@@ -967,6 +967,9 @@ package variants
 //@   ensures[C06] err == nil && value1.typ == Array && value2.typ != Null && len(arrOf(value1)) == 0 ==> result.value.(bool) == false
 //@   assigns nothing
 //@   nopanic
+// membership compares the searched value with each element, in this order (the element is converted, not the value)
+//@   callsite[C06] Equal#0 requires value1 == caller_value2 && value2 == element
+//@   callsite[C06] Equal#1 requires value1 == caller_value1 && value2 == caller_value2
 //@   loop 0
 //@     invariant -1 <= rangeindex && rangeindex < len(array)
 //@     decreases len(array) - rangeindex
